@@ -105,4 +105,65 @@ PROPS = {
                                         "hook pkg/gopro/verif_hooks.go (build tag verif) installs the recording filesystem"],
         "assumptions": ["theorems quantify over every fault position (fs.fault arbitrary) and every initial filesystem; at most one injected fault per run"],
     },
+    "C06": {
+        "props": "TrackVerif.GPMF.PropsC06",
+        "streams": [("GM", 2500, 40000)],
+        "clauses": ["gm.read", "gm.no_panic", "gm.no_hang"],
+        "rule": "PRNG(seed) KLV trees written by the harness: 1..2 devices x 0..3 streams (some nested one level deeper), all 16 value types under unparsed keys with size 1..255, "
+                "repeat 0..40, every padding residue, extreme payloads (all-zero, all-ones, sign bit), dates, strings with NUL/Latin-1 bytes; sensors with SCAL, metadata, faces; "
+                "plus mutated trees, mutated real captures and random bytes; corpus: past crashers and the real .raw captures (two small ones in quick, all four in thorough); "
+                "non-trivial = >= 16 bytes; distinct by SHA-1",
+        "trusted_base": KERNEL + TIE + ["encoding/binary.Read / io.LimitedReader / io.ReadFull / io.CopyN semantics modelled on byte lists",
+                                        "time.Parse of the 16-byte GPMF date layout modelled as a validity predicate"],
+        "assumptions": ["theorems are per-element step lemmas (leaf, container, truncation) rather than one whole-tree round-trip theorem; whole trees are covered by the correspondence"],
+        "partial_notes": ["read(encode tree) = tree for whole trees is established by composition of the step theorems only informally; the tree walker (gpmf.Walk with ErrSkip) is covered by correspondence of the decoder's offset walk, not by a theorem"],
+    },
+    "C07": {
+        "props": "TrackVerif.GPMF.PropsC07",
+        "streams": [("GM", 2500, 40000)],
+        "clauses": ["gm.read", "gm.no_panic"],
+        "rule": "as C06; sensor generator: scale vectors of length 0,1,2,w (entries 1..10000, sometimes 0, int16/int32/uint/float32 typed), every scalable raw type, 0..4 samples, "
+                "value counts that are / are not multiples of the sample width, SCAL+data pairs interleaved with unscaled elements, GPSF/GPSP with right and wrong types, "
+                "FACE records of all four layouts incl. undersized records and missing type definitions",
+        "trusted_base": KERNEL + TIE + ["encoding/binary.Read / io.LimitedReader / io.ReadFull / io.CopyN semantics modelled on byte lists",
+                                        "time.Parse of the 16-byte GPMF date layout modelled as a validity predicate"],
+        "assumptions": ["division is IEEE in the correspondence (bit-exact) and exact in theorems (FNum structure)"],
+    },
+    "C08": {
+        "props": "TrackVerif.GPMF.PropsC08",
+        "streams": [("M4", 1500, 25000)],
+        "clauses": ["m4.decode", "m4.no_panic", "m4.no_hang"],
+        "rule": "PRNG(seed) MP4 files synthesised byte-by-byte (ftyp, mdat, moov/trak/mdia/mdhd/hdlr/minf/stbl): 1..9 samples composed into chunks of 1..3, minimal or redundant stsc runs, "
+                "arbitrary run-length splits of stts with deltas from {0,1,17,500,1000,1001,3003,90000} and surplus entries, explicit or uniform stsz, stco or co64, chunks placed in "
+                "random order with gaps, timescales {1,24,600,999,1000,1001,30000,48000,90000,1e6}, video / other meta tracks before the GoPro MET track; each sample a GPMF payload with "
+                "0..4 GPS, 0..6 ACCL, MAGN readings; one case in five has broken tables; the harness checks that mp4ff parses back the tables it wrote; non-trivial = >= 2 samples",
+        "trusted_base": KERNEL + TIE + ["Eyevinn/mp4ff box parsing: DecodeFile returns the tables that were written (echo-checked per case)",
+                                        "io.Seek + io.LimitReader modelled as drop/take on the file bytes"],
+        "assumptions": ["per-sample extents (chunk offset + preceding sizes) and the stts-run bookkeeping are validated by correspondence; theorems cover order/once, interval tiling, media time and spreading"],
+        "partial_notes": ["extent formula (offset = chunk offset + sizes of preceding samples in the chunk) and equality of each interval with the stts delta: correspondence only"],
+    },
+    "C09": {
+        "props": "TrackVerif.GPMF.PropsC09",
+        "streams": [("GM", 3000, 50000), ("M4", 1500, 25000)],
+        "clauses": ["gm.no_panic", "gm.no_hang", "m4.no_panic", "m4.no_hang"],
+        "rule": "reader: 90% malformed input (1..3 mutations of generated trees: bit flips, truncation, header-field overwrite, zeroed words, random tail, duplicated slices; mutated heads of "
+                "the real captures; random bytes), corpus of every past crasher; decoder: 80% broken sample tables (zero timescale, FirstChunk 0, zero / huge samples-per-chunk, "
+                "truncated stts / chunk offsets, random offsets and sizes, missing co box, missing track, empty stsc / stts, swapped entries, extra samples) with optionally mutated payload; "
+                "10 s watchdog per case; non-trivial = >= 16 bytes / >= 2 samples",
+        "trusted_base": KERNEL + TIE + ["crash points of the modelled files were read from the source (index, slice, divide, nil dereference) and appear as Outcome.panic branches in the model; "
+                                        "stack exhaustion from pathological nesting and allocation failure are runtime limits outside the model",
+                                        "mp4ff itself is assumed not to crash on an otherwise valid container"],
+        "assumptions": ["termination: every Lean definition is total (structural recursion / fuel); the fuel bound |s|+1 reflects that each reader iteration consumes at least 8 bytes"],
+    },
+    "C16": {
+        "props": "TrackVerif.GPMF.PropsC16",
+        "streams": [("GM", 2500, 40000)],
+        "clauses": ["gm.read", "gm.no_panic"],
+        "rule": "as C06; metadata generator: 1..2 devices (DVID/DVNM present or absent, DVNM restated after the streams) x 0..3 streams with arbitrary subsets and orders of "
+                "STNM/SIUN/UNIT/TYPE/TSMP/TMPC/GPSF/GPSP/GPSU with distinct values, exposing elements (GPS5/ACCL/GYRO/WRGB/FACE/FCNM/ISOE) anywhere in the stream; every element's "
+                "Metadata map is dumped key-sorted and compared",
+        "trusted_base": KERNEL + TIE + ["encoding/binary.Read / io.LimitedReader / io.ReadFull / io.CopyN semantics modelled on byte lists",
+                                        "time.Parse of the 16-byte GPMF date layout modelled as a validity predicate"],
+        "assumptions": ["map aliasing (a sensor element's Metadata IS its stream's map) is modelled by resolving the alias to the stream's final map when dumping"],
+    },
 }
